@@ -158,6 +158,17 @@ fn programs(quick: bool) -> Vec<Program> {
         G::Neq(T::list(vec![x.clone(), x.clone()]), T::list(vec![y.clone(), T::I(5)])),
         G::Neq(y.clone(), T::I(6)),
     ];
+    let mut stmts = stmts;
+    if !quick {
+        // a wider alphabet for the thorough tier: a disequality whose unifier chains a variable
+        // through two pairs, bindings to and disequalities against partial lists
+        stmts.extend(vec![
+            G::Neq(T::list(vec![x.clone(), y.clone()]), T::list(vec![y.clone(), T::I(5)])),
+            G::Neq(z.clone(), T::list(vec![x.clone()])),
+            G::Eq(y.clone(), T::list(vec![z.clone()])),
+            G::Eq(T::cons(x.clone(), z.clone()), T::list(vec![T::I(5), y.clone()])),
+        ]);
+    }
     let fd_stmts: Vec<G> = vec![
         G::InFd(vec![x.clone(), y.clone()], Dom::Range(0, 2)),
         G::Fd(FdKind::Lt, vec![x.clone(), y.clone()]),
@@ -184,6 +195,22 @@ fn programs(quick: bool) -> Vec<Program> {
                     continue;
                 }
                 out.push(Program { nq: 3, body: vec![stmts[a].clone(), stmts[b].clone(), stmts[c].clone()] });
+            }
+        }
+    }
+    // thorough: all ordered sequences of 4 statements of the first ten
+    if !quick {
+        let k = 10.min(n);
+        for a in 0..k {
+            for b in 0..k {
+                for c in 0..k {
+                    for d in 0..k {
+                        if a == b || a == c || a == d || b == c || b == d || c == d {
+                            continue;
+                        }
+                        out.push(Program { nq: 3, body: vec![stmts[a].clone(), stmts[b].clone(), stmts[c].clone(), stmts[d].clone()] });
+                    }
+                }
             }
         }
     }
@@ -343,7 +370,7 @@ fn check(p: &Program, index: usize, d: usize) -> (Vec<Violation>, u64, bool) {
 pub fn run(ctx: &mut Ctx) {
     let quick = ctx.quick();
     let d = if quick { 1 } else { 2 };
-    ctx.set("rule", json!("E3 x E2: all ordered sequences of 2-3 statements from an alphabet of == / != goals (incl. subsuming and multi-binding disequalities), sequences containing a two-arm conde, and FD programs, run with an instrumented User type; an fngoal probe before and after every statement and every answer state check: with_constraint - take_constraint == number of stored constraints; for every successful `==` process_extension was called once with exactly the bindings unify_rec adds from the same state; the statements recorded in an answer's (per-branch) user state form one path of the program. Each program under every schedule of the store iteration sites with <= d deviations. distinct_nontrivial = programs whose answers carry stored constraints."));
+    ctx.set("rule", json!("E3 x E2: all ordered sequences of 2-3 statements (thorough: also all 4-statement sequences of the first ten, and a 14-statement alphabet) from an alphabet of == / != goals (incl. subsuming and multi-binding disequalities), sequences containing a two-arm conde, and FD programs, run with an instrumented User type; an fngoal probe before and after every statement and every answer state check: with_constraint - take_constraint == number of stored constraints; for every successful `==` process_extension was called once with exactly the bindings unify_rec adds from the same state; the statements recorded in an answer's (per-branch) user state form one path of the program. Each program under every schedule of the store iteration sites with <= d deviations. distinct_nontrivial = programs whose answers carry stored constraints."));
     ctx.set("deviation_bound", json!(d));
     let progs = programs(quick);
     let sel: Vec<usize> = match &ctx.replay {
